@@ -36,3 +36,39 @@ def concurrent_reconfig(ctx, what, levels=True, plain=True):
                         {"case_line": ln, "run_with": "./check C15 --replay <this file>", "impl": vc.jsonable(iv)}))
     ctx.setdefault("xcheck", {})["concurrent_reconfig_cases"] = len(cases)
     return res
+
+
+def global_facade(ctx, what, n=36):
+    """C02's histories (init_config, then set_config steps, through the process-global logger and the real
+    log! macros, one child process each; judged by C02's compare against C02's model)."""
+    vc = ctx["vc"]
+    from gen import c02
+    vc.coq_build(["Run/C02.vo"])
+    drv = vc.build_driver("C02")
+    vh = vc.build_harness("c02")
+    rng = vc.Rng(ctx["seed"] * 1000 + 202)
+    allc = c02.cases(rng, "quick")
+    multi = [c for c in allc if len(c[0]) >= 3]
+    pick = multi[:: max(1, len(multi) // n)][:n]
+    lines = [vc.show(c) for c in pick]
+    sub = {"vc": vc, "vh": vh, "drv": drv, "seed": ctx["seed"], "tier": "quick", "pid": "C02"}
+    impl = c02.run_impl(sub, pick, lines)
+    ml = c02.model_lines(sub, pick, lines, impl) if hasattr(c02, "model_lines") else lines
+    model = vc.run_lines([drv], ml, timeout_per_batch=300, crash_marker="xmodelcrash")
+    res = []
+    for c, ln, il, mo in zip(pick, lines, impl, model):
+        try:
+            mv = vc.parse(mo)
+        except Exception:
+            raise vc.Broken("corr:C02/model-run", "C02 model failed on a history: %s" % mo[:200])
+        try:
+            iv = vc.parse(il)
+        except Exception:
+            iv = b"unparsable:" + il[:100].encode()
+        d = c02.compare(c, iv, mv)
+        if d:
+            res.append(("%s (C02 history through the global logger): %s" % (what, d),
+                        {"case_line": ln, "run_with": "./check C02 --replay <this file>"}))
+            break
+    ctx.setdefault("xcheck", {})["global_facade_histories"] = len(pick)
+    return res
